@@ -155,6 +155,36 @@ def corr(ctx):
             want = torch.cat([out[0], out[1]]).reshape(1, -1)
             ops.append(Op("wag " + fr(vecs[0]), bstr(out[0].tolist()), nontrivial=False, info={"site": "fec.decoders:WagnerSoftDecisionDecoder", "config": {"k": k, "layout": "two blocks"}},
                           prop_ok=tuple(got.shape) == (1, 2 * k) and bool((got == want).all())))
+        # rows carrying 2..4 blocks: every block must be decoded as it is alone, whatever the parities / weakest positions of its neighbours
+        # (crafted: a block of odd parity whose weakest value sits at position 0, next to blocks of even parity)
+        if k <= 6:
+            singles = {tuple(r): o for r, o in zip(L.tolist(), out.tolist())}
+            rows_mb, want_mb = [], []
+            for _ in range(12 if ctx.thorough else 6):
+                nb = rng.randint(2, 4)
+                blocks = []
+                for bi in range(nb):
+                    if bi == 0 and rng.random() < 0.6:
+                        v = [rng.choice([-1, 1]) * rng.uniform(1.0, 4.0) for _ in range(n)]
+                        v[0] = (1 if v[0] > 0 else -1) * 0.05
+                        if sum(1 for x in v if x < 0) % 2 == 0:
+                            v[1] = -v[1]                      # odd parity, weakest value at position 0
+                        blocks.append(v)
+                    elif rng.random() < 0.5:
+                        c_ = cws[rng.randrange(len(cws))]
+                        blocks.append([(1 - 2 * b) * rng.uniform(0.5, 3.0) for b in c_])   # even parity: nothing to flip
+                    else:
+                        blocks.append([rng.gauss(0, 1.5) for _ in range(n)])
+                rows_mb.append([x for bl in blocks for x in bl])
+                want_mb.append(blocks)
+            for row, blocks in zip(rows_mb, want_mb):
+                got = dec(torch.tensor([row], dtype=torch.float32)).reshape(-1).tolist()
+                exp = []
+                for bl in blocks:
+                    exp += dec(torch.tensor([bl], dtype=torch.float32)).reshape(-1).tolist()
+                okmb = [int(round(g)) for g in got] == [int(round(e)) for e in exp]
+                ops.append(Op("wag " + fr(blocks[0]), bstr(exp[:k]), nontrivial=False, info={"site": "fec.decoders:WagnerSoftDecisionDecoder", "config": {"k": k, "layout": "%d blocks in one row" % len(blocks), "llr": row, "got": bstr(got), "per_block": bstr(exp)}}, prop_ok=okmb))
+            ctx.count("wagner_multiblock_rows", len(rows_mb))
         ctx.count("wagner_k%d" % k, len(vecs))
     # ---------------- message passing decoders
     for name, enc, is_tree in codes(ctx):
